@@ -54,6 +54,9 @@ func c07Build(t *testing.T, seed uint64) (*WorldBuilder, []VQuery) {
 	b.AddPolicy(p, r.Chance(70))
 
 	k := 2 + r.Intn(6)
+	if r.Chance(30) {
+		k = 7 + r.Intn(5) // room for two or three incidents on one reference in one verified range
+	}
 	// plan pushes
 	type pushPlan struct {
 		ref   string
